@@ -92,7 +92,9 @@ class Prop:
                "whether the iteration cap may have been hit is decided from volumes: k swaps multiply |det A[idx]| by more than "
                "tol^k, with the start volume taken from scipy.linalg.lu_factor (same LAPACK getrf as the implementation)",
                "numerical column rank by numpy.linalg.matrix_rank"]
-    ASSUMPTIONS = ["matrices that are tall but numerically rank-deficient are outside the property's premise and only checked "
+    ASSUMPTIONS = ["the post-conditions are read with respect to the matrix as passed by the caller: a routine that overwrites its "
+                   "input is reported (cross keeps using Q after the call)",
+                   "matrices that are tall but numerically rank-deficient are outside the property's premise and only checked "
                    "for not being reported as a success with wrong shapes",
                    "top_k_index is not mentioned by the property text; for those cases dominance / norm bounds are required on "
                    "the first top_k_index rows only and chosen rows must lie among them",
@@ -152,7 +154,7 @@ class Prop:
                 return sorted(set(x for x in [1, r - 1, r, r + 1, r + 2, 2 * r, 3 * r + 1, 30, 60] if 1 <= x <= 60))
             return list(range(1, 61))
 
-        reps = 1
+        reps = 3 if quick else 4
         for r in range(1, 11):
             for n in ns_for(r):
                 for kind in KINDS_M:
@@ -166,7 +168,7 @@ class Prop:
                             mk(A, routine, sq_args(n, r) if sq else rect_args(n, r), kind, order)
         # the call patterns of cross: maxvol(Q) and rect_maxvol(Q, maxK=Q.shape[1]) on QR factors of fibre samples,
         # including rank-deficient samples (QR then completes the basis) and pure default calls
-        for _ in range(120 if quick else 1500):
+        for _ in range(400 if quick else 3000):
             r = rng.randint(1, 10); I = rng.randint(2, 6); n = min(60, r * I) if rng.random() < 0.7 else rng.randint(r + 1, 60)
             if n <= r:
                 n = r + 1
@@ -181,7 +183,7 @@ class Prop:
             mk(A, "py_rect_maxvol", {"maxK": r}, "crossQ", pattern="cross")
         # default-argument calls on every class (a changed default must be seen)
         for kind in KINDS_M:
-            for _ in range(6 if quick else 40):
+            for _ in range(15 if quick else 80):
                 r = rng.randint(1, 10); n = rng.randint(r + 1, 60)
                 A = make_matrix(rng, n, r, kind)
                 for routine in names:
@@ -258,14 +260,18 @@ class Prop:
             return False, "row index out of range: %s" % idx
         if len(set(idx)) != len(idx):
             return False, "row indices are not distinct: %s" % idx
+        if not res.get("input_unchanged", True):
+            return False, "the routine modified the caller's matrix A (the post-conditions refer to A as passed)"
         K = len(idx)
+        if res["C"] is not None and not np.all(np.isfinite(np.array(res["C"], dtype=np.float64))):
+            return False, "non-finite coefficients"
         if not exp["tall"]:
             if sorted(idx) != list(range(n)):
                 return False, "not-tall matrix: rows %s returned instead of all %d rows" % (idx, n)
             if res["C"] is None or res["C_shape"] != [n, n]:
                 return False, "not-tall matrix: coefficient shape %s, expected %s" % (res["C_shape"], [n, n])
             C = np.array(res["C"])
-            if np.abs(C @ A[idx] - A).max() > 1e-9 * max(1.0, np.abs(A).max()):
+            if not close(C @ A[idx], A, 1e-9):
                 return False, "not-tall matrix: C A[idx] != A"
             return True, ""
         if res["C"] is None or res["C_shape"] != [n, K]:
@@ -290,12 +296,12 @@ class Prop:
         # C A[idx] = A, componentwise backward-error tolerance
         E = np.abs(C @ sub - A)
         bound = 1e-7 * (K * np.abs(C).max(axis=1)[:, None] * np.abs(sub).max(axis=0)[None, :] + np.abs(A)) + 1e-300
-        if np.any(E > bound):
+        if not np.all(E <= bound):
             w = np.unravel_index(np.argmax(E - bound), E.shape)
             return False, "C A[idx] != A: error %g at %s (|A| max %g)" % (E[w], w, np.abs(A).max())
         if not exp["rect"] or exp["identity"]:
             D = np.abs(C[idx] - np.eye(K)).max()
-            if D > 1e-7 + 1e-14 * np.linalg.cond(sub):
+            if not (D <= 1e-7 + min(0.1, 1e-14 * np.linalg.cond(sub))):
                 return False, "C[idx] differs from the identity by %g" % D
         if exp["rect"]:
             if K < exp["maxK"]:
@@ -303,18 +309,18 @@ class Prop:
                 un = [i for i in range(topk) if i not in chosen]
                 if un:
                     nr = np.sqrt((C[un] ** 2).sum(axis=1))
-                    if nr.max() > exp["tol"] * (1 + 1e-6) + 1e-12:
+                    if not (nr.max() <= exp["tol"] * (1 + 1e-6) + 1e-12):
                         return False, ("unchosen row %d of C has 2-norm %g > tol=%g although K=%d < maxK=%d" %
                                        (un[int(nr.argmax())], nr.max(), exp["tol"], K, exp["maxK"]))
         else:
             m = np.abs(C[:topk]).max()
-            if m > exp["tol"] * (1 + 1e-6):
+            if not (m <= exp["tol"] * (1 + 1e-6)):
                 # allowed only if the iteration cap was hit: max_iters swaps, each multiplying the volume by > tol
                 s, ld = np.linalg.slogdet(sub)
                 need = exp["max_iters"] * math.log(exp["tol"])
                 if exp.get("start_logdet") is None:
                     return False, "max |C| = %g > tol = %g and the LU start is singular" % (m, exp["tol"])
-                if ld - exp["start_logdet"] < need - 1e-6 * max(1.0, abs(need)):
+                if not (ld - exp["start_logdet"] >= need - 1e-6 * max(1.0, abs(need))):
                     return False, ("max |C| = %g > tol = %g but the volume grew by exp(%g) < tol^max_iters = exp(%g): the "
                                    "iteration cap (%d) cannot have been hit" % (m, exp["tol"], ld - exp["start_logdet"], need,
                                                                                exp["max_iters"]))
